@@ -3,6 +3,7 @@ import Casket.Proofs.Cond
 import Casket.Proofs.Htpasswd
 import Casket.Proofs.AuthConc
 import Casket.Proofs.ChainAddrs
+import Casket.Proofs.TplPool
 import Casket.Generated.Directives
 /-
 C03 — Protected paths are never disclosed without valid credentials.
@@ -20,7 +21,9 @@ code through the stream, listed in known_findings.d/C03.json):
   * the same two routes for an internal path that is only a name prefix inside a directory.
 The positive theorem therefore carries hypotheses that exclude exactly these classes.  Outside the
 model: regular expressions beyond literals, `if` conditions, placeholders other than {path},
-X-Accel-Redirect, templates/markdown/fastcgi/websocket, htpasswd; the OS file system is a table.
+X-Accel-Redirect, markdown/fastcgi/websocket, text/template itself; the OS file system is a table.
+The `templates` middleware and its pooled buffer over SEQUENCES of requests: section TplPool below
+(one more failing class there: a public page that includes a protected file).
 -/
 namespace Casket.Props.C03
 open Casket.Path Casket.FS Casket.FileServe Casket.Chain Casket.ChainSpec Casket.FileServeProofs Casket.ChainProofs
@@ -316,6 +319,103 @@ theorem C03_shared_hash_slot_fails_witness :
     Casket.AuthConc.runShared id cRule cCalls ([], Casket.AuthConc.idleSlots cCalls) [1, 0, 1, 0] = [(1, false), (0, false)] ∧
     Casket.AuthConcSpec.tally cRule cCalls [(0, true), (1, true)] = { wrongServed := 1, validRefused := 0 } := by
   decide
+
+/-! ### `templates` behind basicauth/internal: a sequence of requests and the pooled buffer
+
+`Model/TplPool.lean`: the templates middleware renders into a buffer drawn from the site's
+`sync.Pool`; the buffer returns to the pool holding the page source (parse error), the partial
+output (execution error) or the output (success) — also of a protected page rendered for the
+holder of the credentials.  A sequence of requests runs against an explicit pool; which buffer a
+request draws is the scheduler's choice (any index, or a new one). -/
+section TplPool
+open Casket.TplPool Casket.TplPoolSpec Casket.TplPoolProofs
+
+/-- The pool is unobservable: for every site, every content of the pool at the start, every
+sequence of requests and every choice of buffers, each response is the one the request gets on
+its own with a fresh buffer (the buffer is Reset right after Get). -/
+theorem C03_tpl_pool_unobservable (fuel : Nat) (s : TSite) (pool : List Page) (steps : List (TReq × Option Nat)) :
+    run true fuel s pool steps = steps.map fun st => serveFresh fuel s st.1 :=
+  run_eq_map fuel s steps pool
+
+/-- One request, no history: with tokens that identify their file and no page including a file
+that is closed to someone the page is open to, the response carries no token of a file covered
+for the request's credentials. -/
+theorem C03_tpl_single_request_safe (fuel : Nat) (s : TSite) (hu : TokensUnique s) (hi : IncludeSafe s) (r : TReq) :
+    ∀ t ∈ tokensOf (serveFresh fuel s r), offends s r.creds t = false :=
+  serveFresh_safe fuel s hu hi r
+
+/-- Hence the judge of `c03.tpl` accepts the model's answer to every sequence, from any pool,
+under any choice of buffers.  PARTIAL: `IncludeSafe` excludes exactly the sites where a page
+includes a file that is closed to someone the page is open to — there the property fails by the
+template's own doing (`C03_tpl_include_fails_witness`). -/
+theorem C03_tpl_model_verdict_ok_partial (fuel fuelJ : Nat) (s : TSite) (hu : TokensUnique s) (hi : IncludeSafe s)
+    (pool : List Page) (steps : List (TReq × Option Nat)) :
+    verdict fuelJ s (observed steps (run true fuel s pool steps)) = "ok" :=
+  run_verdict_ok fuel fuelJ s hu hi pool steps
+
+def tSite : TSite := {
+  auth := [{ user := b! "bob", pass := b! "pw", resources := [b! "/secret"], excludes := [] }],
+  internal := [],
+  rules := [{ path := b! "/", exts := [b! ".html"] }],
+  files := [(b! "/home.html", [.lit 10, .incl (b! "/inc/foot.html")]),
+            (b! "/secret/report.html", [.lit 21, .incl (b! "/secret/missing.html"), .lit 22]),
+            (b! "/inc/foot.html", [.lit 40])] }
+
+def tBob : Option (Bytes × Bytes) := some (b! "bob", b! "pw")
+
+/-- the credential holder opens the report (its execution breaks off after the first part), then
+someone without credentials asks for the public page and draws the buffer just put back -/
+def tSteps : List (TReq × Option Nat) :=
+  [({ path := b! "/secret/report.html", creds := tBob }, none), ({ path := b! "/home.html", creds := none }, some 0)]
+
+/-- the hypotheses are satisfiable by a site that protects something and includes something -/
+example : TokensUnique tSite := by
+  intro f hf g hg t h1 h2
+  simp only [tSite, List.mem_cons, List.not_mem_nil, or_false] at hf hg
+  rcases hf with rfl | rfl | rfl <;> rcases hg with rfl | rfl | rfl <;> simp_all
+def tRule : AuthRule := { user := b! "bob", pass := b! "pw", resources := [b! "/secret"], excludes := [] }
+example : IncludeSafe tSite := by
+  have h0 : ruleCovers tRule (b! "/inc/foot.html") = false := by decide
+  have h1 : ruleCovers tRule (b! "/secret/missing.html") = true := by decide
+  have h2 : ruleCovers tRule (b! "/secret/report.html") = true := by decide
+  have hc : ∀ creds p, TplPoolSpec.covered tSite creds p
+      = (ruleCovers tRule p && !(ruleCovers tRule p && ruleAccepts tRule creds)) := by
+    intro creds p; simp [TplPoolSpec.covered, needsAuth, isInternal, tSite, tRule]
+  intro f hf n hn creds
+  simp only [tSite, List.mem_cons, List.not_mem_nil, or_false] at hf
+  rcases hf with rfl | rfl | rfl
+  · simp at hn; subst hn; rw [hc, h0]; simp
+  · simp at hn; subst hn; rw [hc, hc, h1, h2]; exact id
+  · simp at hn
+example : run true 16 tSite [] tSteps = [.error, .rendered [10, 40]] := by decide
+example : serveFresh 16 tSite { path := b! "/secret/report.html", creds := none } = .unauthorized := by decide
+
+/-- What the theorem rests on is the Reset after Get.  In the variant that Resets where the
+handler is done with the buffer but not on the return after a failed Execute (the seeded change
+C03-templates-buffer-not-reset-after-exec-error), the same two requests answer 500 to the
+credential holder and then render the protected page's first part into the public page for a
+request without credentials; a request that happens to get a new buffer is answered correctly. -/
+theorem C03_tpl_stale_buffer_fails_witness :
+    run false 16 tSite [] tSteps = [.error, .rendered [21, 10, 40]] ∧
+    offends tSite none 21 = true ∧
+    (tokensOf (serveFresh 16 tSite { path := b! "/home.html", creds := none })).any (offends tSite none) = false ∧
+    run false 16 tSite [] (tSteps.map fun st => (st.1, none)) = [.error, .rendered [10, 40]] := by
+  decide
+
+/-- `.Include` reads the file below the site root; basicauth and internal do not apply to it.  A
+public page that includes a protected partial hands its content to anyone, while the partial's
+own URL answers 401 (known finding C03-template-includes-protected). -/
+def tIncSite : TSite := { tSite with
+  files := [(b! "/digest.html", [.lit 11, .incl (b! "/secret/part.html")]), (b! "/secret/part.html", [.lit 27])] }
+
+theorem C03_tpl_include_fails_witness :
+    serveFresh 16 tIncSite { path := b! "/secret/part.html", creds := none } = .unauthorized ∧
+    serveFresh 16 tIncSite { path := b! "/digest.html", creds := none } = .rendered [11, 27] ∧
+    offends tIncSite none 27 = true ∧
+    (reach tIncSite.files 16 [.lit 11, .incl (b! "/secret/part.html")]).contains 27 = true := by
+  decide
+
+end TplPool
 
 /-! ### Witnesses: the full property fails on the model exactly as on the real code -/
 
